@@ -242,6 +242,9 @@ func (i *Identity) Unwrap(stanzas []*age.Stanza) (fileKey []byte, err error) {
 
 	// Phase 2: plugin responds with various commands and a file key
 	sr := format.NewStanzaReader(bufio.NewReader(conn))
+	// A file-key stanza with an empty body parses to a nil Body, so fileKey
+	// alone can't tell whether one was already received.
+	var gotFileKey bool
 ReadLoop:
 	for {
 		s, err := i.ui.readStanza(i.name, sr)
@@ -262,10 +265,11 @@ ReadLoop:
 			if n != 0 {
 				return nil, fmt.Errorf("malformed file-key stanza: unexpected index")
 			}
-			if fileKey != nil {
+			if gotFileKey {
 				return nil, fmt.Errorf("received duplicated file-key stanza")
 			}
 
+			gotFileKey = true
 			fileKey = s.Body
 
 			if err := writeStanza(conn, "ok"); err != nil {
